@@ -119,6 +119,13 @@ CHECKS = {
                      'between transfer instants within L*T + allowance, data complete and in order; every operation sequence of length '
                      '<=4 through the limiter and tqdm wrappers against BytesIO',
                 note='virtual time: only underlying I/O and sleep take time', technique='deviation-bounded schedule exploration with a virtual clock'),
+    'C16': dict(cat='exploration', ref='2/C16', engine='E3',
+                text='the real S3Compatible/S3 adapters against a fake service installed as httpx transport: every request captured on '
+                     'the wire (one object name/prefix per character class x all operations, streams of 0/1/3 chunks, 1-3 listing pages '
+                     'with continuation tokens, 4 clocks incl. midnight and year crossing inside one client, http/https, host with port, '
+                     '2 credential sets, a transient fault at every position of a streamed upload) is re-verified by an independent '
+                     'SigV4 implementation incl. payload hash and content length',
+                note='"+" in a received query tried as space and literally', technique='exhaustive input-class enumeration against an independent SigV4 verifier'),
 }
 NOT_YET = {}
 
@@ -159,7 +166,7 @@ m = {
          'kind_free_text': 'explicit-state BFS over command histories; transitions run the real commands with fresh Repository objects'},
         {'name': 'E3+E1', 'path': 'checks/C14.py', 'serves_properties': ['C14'], 'kind_free_text': 'product enumeration + completion-order exploration'},
         {'name': 'E2+E1', 'path': 'mc/hist.py + mc/explore.py', 'serves_properties': ['C02'], 'kind_free_text': 'both'},
-        {'name': 'E3', 'path': 'mc/common.py (pmap) + per-check menus', 'serves_properties': ['C01', 'C04', 'C05', 'C10', 'C11', 'C14', 'C17', 'C19'],
+        {'name': 'E3', 'path': 'mc/common.py (pmap) + per-check menus', 'serves_properties': ['C01', 'C04', 'C05', 'C10', 'C11', 'C14', 'C16', 'C17', 'C19'],
          'kind_free_text': 'complete product enumeration of small menus, sharded over 16 processes'},
     ],
     'checks': checks,
